@@ -221,3 +221,34 @@ func whoMayCall(c *Ctx, p *Prog, rule, api string, allow map[string]string, full
 }
 
 var _ = types.Universe
+
+// expandStr prints e with every local that has exactly one defining expression replaced by that
+// expression (conversions stripped), so that `rel := off - m.start; buf[rel:]` and `buf[off-m.start:]`
+// print alike. Parentheses are kept only around expanded sub-terms of a different precedence.
+func expandStr(fn *Fn, info *types.Info, e ast.Expr, depth int) string {
+	e = stripConv(info, unparen(e))
+	switch v := e.(type) {
+	case *ast.BinaryExpr:
+		l, r := expandStr(fn, info, v.X, depth), expandStr(fn, info, v.Y, depth)
+		if rb, ok := stripConv(info, unparen(v.Y)).(*ast.BinaryExpr); ok && rb.Op.Precedence() <= v.Op.Precedence() {
+			r = "(" + r + ")"
+		}
+		if lb, ok := stripConv(info, unparen(v.X)).(*ast.BinaryExpr); ok && lb.Op.Precedence() < v.Op.Precedence() {
+			l = "(" + l + ")"
+		}
+		return l + v.Op.String() + r
+	case *ast.Ident:
+		if depth < 4 {
+			if o := info.Uses[v]; o != nil {
+				if _, isVar := o.(*types.Var); isVar {
+					if d := singleDef(fn, info, o); d != nil {
+						if _, isBin := stripConv(info, unparen(d)).(*ast.BinaryExpr); isBin {
+							return expandStr(fn, info, d, depth+1)
+						}
+					}
+				}
+			}
+		}
+	}
+	return canon(e)
+}
